@@ -26,6 +26,11 @@ pub struct Case {
     pub follow: bool,
 }
 
+thread_local! {
+    /// entries whose path is not valid UTF-8 (statistics)
+    static NON_UTF8_SEEN: std::cell::Cell<u64> = std::cell::Cell::new(0);
+}
+
 /// the same path, byte for byte, up to the spelling of separators and `.` components
 fn same(a: &Path, b: &Path) -> bool {
     norm(a) == norm(b) && a.components().eq(b.components())
@@ -35,6 +40,9 @@ fn same(a: &Path, b: &Path) -> bool {
 fn check_entry(e: &dyn Entry, given: &Path, rooted: bool, follow: bool, what: &str) -> Result<usize, String> {
     let (root, rel) = e.root_relative_paths();
     let path = e.path();
+    if path.to_str().is_none() {
+        NON_UTF8_SEEN.with(|c| c.set(c.get() + 1));
+    }
     if !same(&root.join(rel), path) {
         return Err(format!("{}: root {:?} joined with relative {:?} is not the path {:?}", what, root, rel, path));
     }
@@ -80,7 +88,7 @@ impl Property for C14 {
             .into()
     }
     fn assumptions(&self) -> Vec<String> {
-        vec!["paths are compared component-wise".into(), "UTF-8 names only".into()]
+        vec!["paths are compared component-wise, byte for byte".into(), "names that are not valid UTF-8 only for regular files (never directories, bases or prefixes)".into()]
     }
     fn budget(&self, tier: Tier) -> (u32, u32) {
         match tier {
@@ -146,6 +154,18 @@ impl Property for C14 {
         out
     }
     fn check(&self, case: &Case, st: &mut Stats) -> CheckResult {
+        NON_UTF8_SEEN.with(|c| c.set(0));
+        let r = check_case(case, st);
+        let n = NON_UTF8_SEEN.with(|c| c.get());
+        if n > 0 {
+            st.add("entries_with_non_utf8_names", n);
+        }
+        r
+    }
+}
+
+fn check_case(case: &Case, st: &mut Stats) -> CheckResult {
+    {
         let s = match Scratch::create(&case.tree) {
             Ok(s) => s,
             Err(_) => {
